@@ -1,7 +1,7 @@
 """C01 — execution yields exactly the graph the language reference prescribes."""
 from ..engines import e2_errflow as e2
 from ..engines import e3_driver
-from . import C02, C04
+from . import C02, C03, C04, C08
 
 LEVEL_TEXT = ("Interpreter-skeleton analysis on the MIR: (E8.d) every statement and expression form has its own arm and handler in both "
               "dispatchers, no catch-all; (C01.D) stanzas are visited in file order, the block runs exactly once per match, locals are "
@@ -9,7 +9,9 @@ LEVEL_TEXT = ("Interpreter-skeleton analysis on the MIR: (E8.d) every statement 
               "block discipline of scan/if/for/comprehensions (nested locals, clear-then-bind per iteration, no short circuit, first arm "
               "wins, scan features F1-F7) in both modes; (C04.W) inherited scoped lookup takes the nearest defining ancestor; (E2.d) no "
               "ExecutionError / VariableError / Attributes::add failure in the interpreters, graph, variables and functions modules is "
-              "dropped — a failing run returns an error, not a graph.")
+              "dropped — a failing run returns an error, not a graph; (C03.C) captures are read from tree-sitter's own node iterator and no "
+              "query cursor is restricted (match limit, ranges, depth, timeout); (E6.p/E6.o/C04.M) lazy mode evaluates every deferred "
+              "statement and value, in the phase order edges → attributes → prints, and a scoped definition is a memoising thunk.")
 LEVEL_NOTE = ("Not decided: everything about computed *values* (that each evaluation rule computes what the reference prescribes): that is "
               "semantic equivalence with a prose specification over all programs.  The check shows the control skeleton and the error "
               "discipline only; it would not notice e.g. `&=` replaced by `|=` in a value computation outside the listed features.")
@@ -35,6 +37,12 @@ def run(prog, rep):
         for fid, v in fe.items():
             if fid not in {p[0] for p in pr}:
                 rep.ok("C04.W", "%s :: %s" % (lst[0].id, fid), lst[0].loc(), v)
+    # once per match of the query: captures come from tree-sitter's own iterator and no cursor is restricted (C03.C);
+    # lazy mode evaluates everything it deferred, in the phase order, and memoises scoped definitions (E6.p, E6.o, C04.M)
+    C03.capture_and_cursor(prog, rep)
+    C02.lazy_phases(prog, rep)
+    C08.lazy_routing(prog, rep)
+    C04.memo_rule(prog, rep)
     rep.rule("E2.d", "the result of every fallible call in the interpreter, graph, variables and functions modules is propagated, returned, "
                      "matched with an error-returning Err arm, or is a listed intentional absorption")
     files = ("src/execution/strict.rs", "src/execution.rs", "src/graph.rs", "src/variables.rs", "src/functions.rs", "src/execution/lazy.rs",
